@@ -60,8 +60,15 @@ def energy_spectra(
         b = 10**spectra.upper_bound
         mp = 1 - p
         u = np.random.uniform(0.0, 1.0 + np.finfo(np.float64).eps, size=N)
-        log_e_nu = np.reciprocal(mp) * np.log10(u * (b**mp - a**mp) + a**mp)
-        return log_e_nu
+        if mp == 0:
+            # dN/dE ~ 1/E: uniform in log E
+            log_e_nu = spectra.lower_bound + u * (
+                spectra.upper_bound - spectra.lower_bound
+            )
+        else:
+            log_e_nu = np.reciprocal(mp) * np.log10(u * (b**mp - a**mp) + a**mp)
+        # rounding (and u in [1, 1 + eps)) must not leave the configured range
+        return np.clip(log_e_nu, spectra.lower_bound, spectra.upper_bound)
 
     if isinstance(spectra, Callable):
         return spectra(*args, size=N, **kwargs)
@@ -83,6 +90,8 @@ def spec_norm(
         a = 10**spectra.lower_bound
         b = 10**spectra.upper_bound
         mp = 1 - p
+        if mp == 0:
+            return 1.0 / np.log(b / a)
         return mp / (b**mp - a**mp)
 
     return 1.0
@@ -101,6 +110,8 @@ def sum_spec_weights(
         a = 10**spectra.lower_bound
         b = 10**spectra.upper_bound
         mp = 1 - p
+        if mp == 0:
+            return np.log(b / a)
         return (b**mp - a**mp) / mp
 
     return 1.0
